@@ -21,10 +21,7 @@
 
 //! Kademlia k-bucket implementation.
 
-use crate::{
-    protocol::libp2p::kademlia::types::{ConnectionType, KademliaPeer, Key},
-    PeerId,
-};
+use crate::protocol::libp2p::kademlia::types::{ConnectionType, KademliaPeer, Key};
 
 /// K-bucket entry.
 #[derive(Debug)]
@@ -36,7 +33,9 @@ pub enum KBucketEntry<'a> {
     Occupied(&'a mut KademliaPeer),
 
     /// Vacant entry.
-    Vacant(&'a mut KademliaPeer),
+    ///
+    /// Nothing is stored in the k-bucket until [`KBucketEntry::insert()`] is called.
+    Vacant(VacantSlot<'a>),
 
     /// Entry not found and any present entry cannot be replaced.
     NoSlot,
@@ -45,11 +44,39 @@ pub enum KBucketEntry<'a> {
 impl<'a> KBucketEntry<'a> {
     /// Insert new entry into the entry if possible.
     pub fn insert(&'a mut self, new: KademliaPeer) {
-        if let KBucketEntry::Vacant(old) = self {
-            old.peer = new.peer;
-            old.key = Key::from(new.peer);
-            old.address_store = new.address_store;
-            old.connection = new.connection;
+        if let KBucketEntry::Vacant(slot) = self {
+            slot.insert(new);
+        }
+    }
+}
+
+/// Slot of a k-bucket into which a new peer can be inserted.
+///
+/// The slot is either free capacity of the k-bucket or an existing entry that can be replaced
+/// because the peer is not connected. The k-bucket is not modified unless a peer is inserted.
+#[derive(Debug)]
+pub struct VacantSlot<'a> {
+    /// Nodes of the k-bucket.
+    nodes: &'a mut Vec<KademliaPeer>,
+
+    /// Index of the entry that is replaced on insert, `None` if the new peer is appended.
+    index: Option<usize>,
+}
+
+impl VacantSlot<'_> {
+    /// Store `new` into the slot.
+    fn insert(&mut self, new: KademliaPeer) {
+        let new = KademliaPeer {
+            key: Key::from(new.peer),
+            ..new
+        };
+
+        match self.index {
+            Some(index) => self.nodes[index] = new,
+            None => {
+                self.nodes.push(new);
+                self.index = Some(self.nodes.len() - 1);
+            }
         }
     }
 }
@@ -79,19 +106,19 @@ impl KBucket {
         }
 
         if self.nodes.len() < 20 {
-            self.nodes.push(KademliaPeer::new(
-                PeerId::random(),
-                vec![],
-                ConnectionType::NotConnected,
-            ));
-            let len = self.nodes.len() - 1;
-            return KBucketEntry::Vacant(&mut self.nodes[len]);
+            return KBucketEntry::Vacant(VacantSlot {
+                nodes: &mut self.nodes,
+                index: None,
+            });
         }
 
         for i in 0..self.nodes.len() {
             match self.nodes[i].connection {
                 ConnectionType::NotConnected | ConnectionType::CannotConnect => {
-                    return KBucketEntry::Vacant(&mut self.nodes[i]);
+                    return KBucketEntry::Vacant(VacantSlot {
+                        nodes: &mut self.nodes,
+                        index: Some(i),
+                    });
                 }
                 _ => continue,
             }
@@ -112,6 +139,7 @@ impl KBucket {
 #[cfg(test)]
 mod tests {
     use super::*;
+    use crate::PeerId;
 
     #[test]
     fn closest_iter() {
